@@ -45,7 +45,17 @@ def main():
             rc, o = sh("./check %s quick" % prop, cwd=ROOT, env=dict(ENV, VERIF_REPO=wt, VERIF_SEED="1"))
             classes = sorted(set(re.findall(r"^\s+class=([^:]+):", o, re.M)))
             res[sid] = {"property": prop, "applies": True, "exit": rc, "detected": rc == 1, "classes": classes[:8], "wall_s": round(time.time() - t0, 1)}
-            print(sid, prop, "exit", rc, "DETECTED" if rc == 1 else "MISSED", classes[:3], flush=True)
+            if rc != 1:
+                # a defect outside what the property's own check drives may be recorded as caught by other properties' checks
+                for other in meta.get("also_detected_by", []):
+                    rc2, o2 = sh("./check %s quick" % other, cwd=ROOT, env=dict(ENV, VERIF_REPO=wt, VERIF_SEED="1"))
+                    if rc2 == 1:
+                        res[sid]["detected"] = True
+                        res[sid]["detected_by"] = other
+                        res[sid]["classes"] = sorted(set(re.findall(r"^\s+class=([^:]+):", o2, re.M)))[:8]
+                        rc = 1
+                        break
+            print(sid, prop, "exit", rc, "DETECTED" if rc == 1 else "MISSED", res[sid].get("detected_by", ""), res[sid]["classes"][:3], flush=True)
         finally:
             sh("git -C /repo worktree remove --force %s" % wt)
     json.dump(res, open(os.path.join(ROOT, "seeded", "REGRESSION.json"), "w"), indent=1)
